@@ -17,6 +17,7 @@ sys.path.insert(0, os.path.dirname(os.path.abspath(__file__)))
 import lift
 
 VERIF = os.path.dirname(os.path.dirname(os.path.abspath(__file__)))
+KINDS = {'base'}
 OPS = [(r'(?<![=!<>])==(?!=)', '!='), (r'!=', '=='), (r' <= ', ' < '), (r' >= ', ' > '), (r' && ', ' || '), (r' \|\| ', ' && '),
        (r' < (?![<=])', ' <= '), (r' > (?![>=])', ' >= '), (r'\+ 1\b', '+ 2'), (r'- 1\b', '- 2')]
 
@@ -38,10 +39,31 @@ def mutants_for(src, k, a, b, rng, per_fn):
         s, e = a + m.start(), a + m.end()
         if k[s] == lift.CODE and len(m.group(1)) <= 3:
             cands.append((s, e, str(int(m.group(1)) + 1), 'literal %s -> %d' % (m.group(1), int(m.group(1)) + 1)))
+    if 'negate' in KINDS:
+        for m in re.finditer(r'\bif (?!let\b)([^{};\n]+?) \{', seg):
+            s_, e_ = a + m.start(1), a + m.end(1)
+            if all(k[i] == lift.CODE or src[i] in '"\'' or k[i] == lift.LIT for i in range(s_, e_)):
+                cands.append((s_, e_, '!(' + m.group(1) + ')', 'negated: if ' + m.group(1)[:50]))
+    if 'none' in KINDS:
+        for m in re.finditer(r'\bSome\(', seg):
+            s_ = a + m.start()
+            if k[s_] != lift.CODE:
+                continue
+            try:
+                e_ = lift.match_close(src, k, s_ + 4)
+            except Exception:
+                continue
+            # only value positions: `= Some(..)`, `(Some(..)`, `, Some(..)`, `=> Some(..)` , `return Some(..)`, start of tail line
+            pre = src[max(0, s_ - 12):s_].rstrip()
+            if pre.endswith(('=', '(', ',', '=>', 'return', '{')) and not pre.endswith(('==', '!=')) and 'let' not in src[src.rfind('\n', 0, s_):s_].split('=')[0] or pre.endswith('return'):
+                if '\n' not in src[s_:e_ + 1]:
+                    cands.append((s_, e_ + 1, 'None', 'Some(..) -> None: ' + src[s_:e_ + 1][:40]))
+    if 'base' not in KINDS:
+        cands = [c for c in cands if c[3].startswith(('negated', 'Some(..)'))]
     # delete a one-line statement (`    foo.bar(x);`), not a `let` (would not compile) and not a return
     off = a
     prev = '{'
-    for ln in seg.split('\n'):
+    for ln in (seg.split('\n') if 'base' in KINDS else []):
         st = ln.strip()
         if st and st.endswith(';') and re.match(r'^[A-Za-z_*]', st) and not st.startswith(('let ', 'return', 'use ', 'break', 'continue')) \
                 and st.count('(') == st.count(')') and st.count('{') == st.count('}') and prev.endswith((';', '{', '}')):
@@ -88,7 +110,9 @@ def main():
     ap.add_argument('--seed', type=int, default=1)
     ap.add_argument('--repo', default='/repo')
     ap.add_argument('--out', default='/tmp/mut_report.json')
+    ap.add_argument('--kinds', default='base', help='comma list of: base (operators, literals, booleans, deletions), negate (if conditions), none (Some(x) -> None)')
     a = ap.parse_args()
+    KINDS.clear(); KINDS.update(a.kinds.split(','))
     reg = json.load(open(os.path.join(VERIF, 'contracts', 'registry.json')))
     units = [u for u in (a.units.split(',') if a.units else reg['units']) if reg['units'][u]['engine'] == 'verus']
     rng = random.Random(a.seed)
